@@ -188,6 +188,18 @@ class Program:
                     for s2 in sub.body:
                         self._index_stmt(m, s2)
 
+    def add_file(self, modname, path):
+        """Index an extra file (a specification written in the analysed subset)."""
+        with open(path, "rb") as fh:
+            src = fh.read().decode("utf-8")
+        tree = ast.parse(src, filename=path)
+        m = ModuleInfo(modname, path, os.path.relpath(path), tree, src, False)
+        self.modules[modname] = m
+        self._index_module(m)
+        for c in m.classes.values():
+            c.bases = [self._resolve_base(c, b) for b in c.base_exprs]
+        return m
+
     # --------------------------------------------------------------- resolve
     def resolve_name(self, m: ModuleInfo, name: str, _depth=0):
         """-> FuncInfo | ClassInfo | ("module", dotted) | ("external", dotted) | ("const", ModuleInfo, expr) | None"""
